@@ -32,6 +32,13 @@ func (a *Addressing) ExtractMailbox(address string) (string, error) {
 	if err != nil {
 		return "", err
 	}
+	if local == "" {
+		return "", errors.New("mailbox name cannot be empty")
+	}
+	if local[0] == '.' || strings.Contains(local, "..") {
+		// Such a name could not be parsed again when the mailbox is requested.
+		return "", errors.New("mailbox name cannot start with a period or contain a sequence of them")
+	}
 
 	if a.Config.MailboxNaming == config.LocalNaming {
 		return local, nil
@@ -48,8 +55,11 @@ func (a *Addressing) ExtractMailbox(address string) (string, error) {
 	if !ValidateDomainPart(domain) {
 		return "", fmt.Errorf("domain part %q in %q failed validation", domain, address)
 	}
+	if local[len(local)-1] == '.' {
+		return "", errors.New("mailbox name cannot end with a period")
+	}
 
-	return local + "@" + domain, nil
+	return local + "@" + canonicalDomain(domain), nil
 }
 
 // NewRecipient parses an address into a Recipient. This is used for parsing RCPT TO arguments,
@@ -207,6 +217,15 @@ func ValidateDomainPart(domain string) bool {
 	return true
 }
 
+// canonicalDomain lower-cases a domain, domains are not case sensitive.  The tag of an IPv6 address
+// literal is preserved, ValidateDomainPart expects it verbatim.
+func canonicalDomain(domain string) string {
+	if strings.HasPrefix(domain, "[IPv6:") {
+		return "[IPv6:" + strings.ToLower(domain[6:])
+	}
+	return strings.ToLower(domain)
+}
+
 // Extracts the mailbox name when domain addressing is enabled.
 func extractDomainMailbox(address string) (string, error) {
 	var local, domain string
@@ -238,7 +257,7 @@ func extractDomainMailbox(address string) (string, error) {
 		return "", fmt.Errorf("domain part %q in %q failed validation", domain, address)
 	}
 
-	return domain, nil
+	return canonicalDomain(domain), nil
 }
 
 // parseEmailAddress unescapes an email address, and splits the local part from the domain part.  An
